@@ -123,6 +123,8 @@ fn decode_loop(
     let mut total_bytes_read = 0;
 
     loop {
+        #[cfg(saphyr_verif)]
+        crate::verif_hooks::decode_tick();
         match decoder.decode_to_string_without_replacement(&input[total_bytes_read..], output, true)
         {
             // If the input is empty, we processed the whole input.
